@@ -42,9 +42,9 @@ CHECKS = {
         "note": "Trusted: Kani/CBMC/CaDiCaL; models/tokio waker identities and poll helper; hook watchexec_supervisor::verif (cfg(kani)). Sequential execution: atomics/Mutex are run without thread interleavings. Not covered: supervisor::job::task (async, out of reach) - so a mutation that forgets to raise a control's flag in task.rs is NOT detected.",
     },
     "C16": {
-        "text": "Bounded, solver-decided at the serde data-model level: Tag <-> SerdeTag identity for every non-fs tag kind over full integer ranges; documented field placement; all 41 filesystem event kinds through their wire names (format half with real core::fmt + parse half, sharing one table); totality of the wire->Tag conversion over every kind x field-presence mask x integer payload (same kind or Unknown, NonZero invariants); Signal <-> SerdeSignal both ways.",
+        "text": "Bounded, solver-decided at the serde data-model level: Tag <-> SerdeTag identity for every non-fs tag kind over full integer ranges; documented field placement; all 41 filesystem event kinds through their wire names (format half with real core::fmt + parse half, sharing one table); totality of the wire->Tag conversion over every kind x field-presence mask x integer payload (same kind or Unknown, NonZero invariants); Signal <-> SerdeSignal both ways; plus the JSON shape (field names, order, omitted fields, every unit-variant spelling) captured from the real derive(Serialize) with a recording Serializer, and 16 concrete JSON tag objects (well-formed in any field order / with unknown fields; degraded: missing, foreign, contradictory fields) driven through the real derive(Deserialize).",
         "design_ref": "4/C16",
-        "note": "Trusted: Kani/CBMC/CaDiCaL; hooks watchexec_events::verif / watchexec_signals::verif (cfg(kani)). Not covered: the serde_json text layer and serde-derive attribute spelling (field names in the text, kebab-case renames), Event-level vectors and metadata maps (HashMap), non-UTF-8 paths. In the quick tier 2 of the 6 format-half ranges run (14 kinds); all 41 in thorough.",
+        "note": "Trusted: Kani/CBMC/CaDiCaL; hooks watchexec_events::verif / watchexec_signals::verif (cfg(kani)). Not covered: serde_json itself (tokenising, escaping, number printing; the harnesses stand in for it), Event-level vectors and metadata maps (HashMap), non-UTF-8 paths, parse scenarios beyond the 16 objects. In the quick tier 2 of the 6 format-half ranges run (14 kinds); all 41 in thorough.",
     },
     "C18": {
         "text": "Bounded, solver-decided for the no-shell branch: Command::to_spawnable with Program::Exec hands the process layer exactly [program, args...] byte for byte, for 0..=3 arguments of 0..=2 symbolic ASCII bytes (every metacharacter/whitespace/quote/control byte) plus a multi-byte argument, and exactly the wrappers {KillOnDrop} + {Session | Group} + {ResetSigmask} for all 8 option combinations.",
